@@ -9,6 +9,10 @@
 */
 #include "vh.h"
 #include "sparse.h"
+#ifndef BIG_C06
+#define BIG_C06 0
+#endif
+#define BIG_PROP (BIG_C06 ? "C06" : BIG_C11 ? "C11" : "C04")
 
 #define ZBUF_BYTES	(32u << 20)
 static unsigned char *zbuf ;
@@ -51,7 +55,7 @@ static short expect_at (ISLAND *isl, int nisl, sf_count_t i, int c, int ch, cons
 
 /* parse one image (finished file or crash-point snapshot); n = frames handed to the library so far */
 static int check_image (SPF *img, int format, int ch, int rate, int bw, sf_count_t n, ISLAND *isl, int nisl, const short *zref, const char *what, const char *fn, const char *mname, int deep, int downgrade)
-{	SF_INFO ri ; SNDFILE *r ; sf_count_t F ; int k, bad = 0 ; short *buf ; const char *P = BIG_C11 ? "C11" : "C04" ;
+{	SF_INFO ri ; SNDFILE *r ; sf_count_t F ; int k, bad = 0 ; short *buf ; const char *P = BIG_PROP ;
 	memset (&ri, 0, sizeof (ri)) ; img->pos = 0 ; r = sf_open_virtual (&SPVIO, SFM_READ, &ri, img) ;
 	if (!r) { vh_viol (vh_key ("%s|big-unreadable|%s|%s|%s", P, fn, mname, n > 0xffffffffLL / bw ? "over-4GiB" : n > 0x7fffffffLL / bw ? "over-2GiB" : "small"), "ch=%d %s after %lld frames (%lld bytes): cannot be opened: %s", ch, what, (long long) n, (long long) img->len, sf_strerror (NULL)) ; return 1 ; }
 	F = ri.frames ;
@@ -94,6 +98,42 @@ static int check_image (SPF *img, int format, int ch, int rate, int bw, sf_count
 	return bad ;
 }
 
+/* C06 on a big file: seeks with every whence (and the SFM_READ qualifier) to positions in and around the islands, across the 2^31 / 2^32 byte and frame
+** boundaries, each followed by a short read that must deliver the frames of that position */
+static void big_seek_walk (SPF *img, int format, int ch, int rate, int bw, sf_count_t n, ISLAND *isl, int nisl, const short *zref, const char *fn)
+{	SF_INFO ri ; SNDFILE *r ; sf_count_t F, pos = 0 ; int st, c ; short buf [64 * 8] ;
+	(void) rate ;
+	memset (&ri, 0, sizeof (ri)) ; img->pos = 0 ; r = sf_open_virtual (&SPVIO, SFM_READ, &ri, img) ; if (!r) return ;
+	F = ri.frames ; if (F != n && F != n + 1) { sf_close (r) ; return ; }		/* frame-count deviations are C04's business */
+	for (st = 0 ; st < (vh_thorough ? 3000 : 400) ; st++)
+	{	int k = vh_rint (nisl), wh = vh_rint (6) ; sf_count_t tgt, ret, g, i ; const char *wn ;
+		switch (vh_rint (5))
+		{	case 0 : tgt = isl [k].start + vh_rint ((int) isl [k].len) ; break ;			/* inside an island */
+			case 1 : tgt = isl [k].start - 1 - vh_rint (40) ; break ;						/* just before it */
+			case 2 : tgt = isl [k].start + isl [k].len + vh_rint (40) ; break ;				/* just behind it */
+			case 3 : tgt = (sf_count_t) (vh_rnd () % (uint64_t) F) ; break ;				/* anywhere */
+			default : tgt = F - 1 - vh_rint (30) ; break ;									/* the end */
+			}
+		if (tgt < 0) tgt = 0 ; if (tgt > F) tgt = F ;
+		switch (wh)
+		{	case 0 : ret = sf_seek (r, tgt, SEEK_SET) ; wn = "SEEK_SET" ; break ;
+			case 1 : ret = sf_seek (r, tgt - pos, SEEK_CUR) ; wn = "SEEK_CUR" ; break ;
+			case 2 : ret = sf_seek (r, tgt - F, SEEK_END) ; wn = "SEEK_END" ; break ;
+			case 3 : ret = sf_seek (r, tgt, SEEK_SET | SFM_READ) ; wn = "SEEK_SET|SFM_READ" ; break ;
+			case 4 : ret = sf_seek (r, tgt - pos, SEEK_CUR | SFM_READ) ; wn = "SEEK_CUR|SFM_READ" ; break ;
+			default : ret = sf_seek (r, tgt - F, SEEK_END | SFM_READ) ; wn = "SEEK_END|SFM_READ" ; break ;
+			}
+		vh_stat ("big_seeks", 1) ;
+		if (ret != tgt) { vh_viol (vh_key ("C06|big-seek-return|%s|%s|%s", fn, wn, tgt > 0xffffffffLL ? "frame>2^32" : tgt > 0x7fffffffLL ? "frame>2^31" : tgt * bw > 0xffffffffLL ? "offset>4GiB" : tgt * bw > 0x7fffffffLL ? "offset>2GiB" : "low"), "ch=%d: sf_seek to frame %lld (%s from position %lld, file of %lld frames) returned %lld: %s", ch, (long long) tgt, wn, (long long) pos, (long long) F, (long long) ret, sf_strerror (r)) ; break ; }
+		g = sf_readf_short (r, buf, 16) ; pos = tgt + g ;
+		if (g != (F - tgt < 16 ? F - tgt : 16)) { vh_viol (vh_key ("C06|big-read-count|%s", fn), "after the seek to frame %lld of %lld a 16-frame read delivered %lld", (long long) tgt, (long long) F, (long long) g) ; break ; }
+		for (i = 0 ; i < g ; i++) for (c = 0 ; c < ch ; c++) if (tgt + i < n && buf [i * ch + c] != expect_at (isl, nisl, tgt + i, c, ch, zref))
+		{	vh_viol (vh_key ("C06|big-data-after-seek|%s|%s|%s", fn, wn, (tgt + i) * bw > 0xffffffffLL ? "offset>4GiB" : (tgt + i) * bw > 0x7fffffffLL ? "offset>2GiB" : "low"), "ch=%d: after %s to frame %lld, frame %lld channel %d reads %d, written %d", ch, wn, (long long) tgt, (long long) (tgt + i), c, buf [i * ch + c], expect_at (isl, nisl, tgt + i, c, ch, zref)) ; st = 1 << 30 ; i = g ; break ; }
+		vh_distinct (vh_fnv (0, &format, 4) ^ ((uint64_t) ch << 33) ^ ((uint64_t) tgt << 3) ^ (uint64_t) wh ^ 0xC06) ;
+		}
+	sf_close (r) ;
+}
+
 /* mode: 0 no updates (C04), 1 SFC_UPDATE_HEADER_NOW after every call, 2 SFC_SET_UPDATE_HEADER_AUTO; opt: RF64 auto-downgrade */
 static void big_case (int format, int ch, int rate, int mode, int downgrade, int upto /* 1: 2 GiB, 2: 4 GiB */, int typed_zeros)
 {	const char *fn = vh_fname (format) ; int bw = vh_bits (format) / 8 * ch, nisl = 0, k, bad = 0 ; ISLAND isl [MAXISL] ; short zref [8] ; SPF f ; SNDFILE *s ; SF_INFO wi ;
@@ -116,7 +156,7 @@ static void big_case (int format, int ch, int rate, int mode, int downgrade, int
 		while (n < isl [k].start && !bad)
 		{	sf_count_t fr = isl [k].start - n, maxfr = ZBUF_BYTES / (typed_zeros ? 4 * ch : bw), w ; if (fr > maxfr) fr = maxfr ;
 			if (typed_zeros) w = sf_writef_int (s, (int *) zbuf, fr) ; else w = sf_write_raw (s, zbuf, fr * bw) / bw ;
-			if (w != fr) { vh_viol (vh_key ("%s|big-write-failed|%s|%s", BIG_C11 ? "C11" : "C04", fn, mname), "zero run: wrote %lld of %lld frames at frame %lld: %s", (long long) w, (long long) fr, (long long) n, sf_strerror (s)) ; bad = 1 ; break ; }
+			if (w != fr) { vh_viol (vh_key ("%s|big-write-failed|%s|%s", BIG_PROP, fn, mname), "zero run: wrote %lld of %lld frames at frame %lld: %s", (long long) w, (long long) fr, (long long) n, sf_strerror (s)) ; bad = 1 ; break ; }
 			n += fr ; vh_stat ("zero_run_calls", 1) ;
 			if (mode == 1) sf_command (s, SFC_UPDATE_HEADER_NOW, NULL, 0) ;
 			}
@@ -128,7 +168,7 @@ static void big_case (int format, int ch, int rate, int mode, int downgrade, int
 			while (done < len && !bad)
 			{	long p = 1 + vh_rint ((int) (len / 6)), w ; if (p > len - done) p = len - done ;
 				w = vh_rint (2) ? (long) sf_writef_short (s, d + done * ch, p) : (long) sf_write_short (s, d + done * ch, p * ch) / ch ;
-				if (w != p) { vh_viol (vh_key ("%s|big-write-failed|%s|%s", BIG_C11 ? "C11" : "C04", fn, mname), "island %d: wrote %ld of %ld frames at frame %lld: %s", k, w, p, (long long) n, sf_strerror (s)) ; bad = 1 ; break ; }
+				if (w != p) { vh_viol (vh_key ("%s|big-write-failed|%s|%s", BIG_PROP, fn, mname), "island %d: wrote %ld of %ld frames at frame %lld: %s", k, w, p, (long long) n, sf_strerror (s)) ; bad = 1 ; break ; }
 				done += p ; n += p ;
 				if (mode == 1) sf_command (s, SFC_UPDATE_HEADER_NOW, NULL, 0) ;
 				if (mode) { SPF snap ; sp_copy (&snap, &f) ; bad |= check_image (&snap, format, ch, rate, bw, n, isl, nisl, zref, "crash point inside an island", fn, mname, 0, downgrade) ; sp_free (&snap) ; ncp++ ; vh_check_inv (s, "big update") ;
@@ -141,7 +181,8 @@ static void big_case (int format, int ch, int rate, int mode, int downgrade, int
 	vh_stat ("crash_points_checked", ncp) ;
 	vh_statf (1, "largest_file_GiB:%d", (int) (f.len >> 30)) ;
 	if (!bad)
-	{	bad = check_image (&f, format, ch, rate, bw, n, isl, nisl, zref, "finished file", fn, mname, vh_thorough ? 2 : 1, downgrade) ;
+	{	bad = BIG_C06 ? 0 : check_image (&f, format, ch, rate, bw, n, isl, nisl, zref, "finished file", fn, mname, vh_thorough ? 2 : 1, downgrade) ;
+		if (BIG_C06) big_seek_walk (&f, format, ch, rate, bw, n, isl, nisl, zref, fn) ;
 		vh_distinct (vh_fnv (0, &format, 4) ^ ((uint64_t) ch << 33) ^ ((uint64_t) mode << 38) ^ ((uint64_t) n << 3) ^ ((uint64_t) downgrade << 62) ^ 1) ; }
 	vh_stat ("bytes_through_write_path_MiB", (long) (f.bytes_written >> 20)) ;
 	sp_free (&f) ;
@@ -151,7 +192,7 @@ out :
 
 int main (int argc, char **argv)
 {	int f, c, mode, up ;
-	vh_init (argc, argv, BIG_C11 ? "c11_big_files" : "c04_big_files", BIG_C11 ? "C11" : "C04") ;
+	vh_init (argc, argv, BIG_C06 ? "c06_big_files" : BIG_C11 ? "c11_big_files" : "c04_big_files", BIG_PROP) ;
 	vh_case_secs = 600 ;
 	vh_enum_formats () ;
 	zbuf = calloc (1, ZBUF_BYTES) ;
@@ -161,7 +202,7 @@ int main (int argc, char **argv)
 		if (!cap) continue ;
 		if (!vh_sample_granular (format) || vh_bits (format) < 8) continue ;
 		if (!vh_accepts (format, c, 8000)) continue ;
-		for (mode = BIG_C11 ? 1 : 0 ; mode <= (BIG_C11 ? 2 : 0) ; mode++) for (dg = 0 ; dg <= (maj == SF_FORMAT_RF64) ; dg++) for (up = 1 ; up <= cap ; up++)
+		for (mode = (BIG_C11 && !BIG_C06) ? 1 : 0 ; mode <= ((BIG_C11 && !BIG_C06) ? 2 : 0) ; mode++) for (dg = 0 ; dg <= (maj == SF_FORMAT_RF64) ; dg++) for (up = 1 ; up <= cap ; up++)
 		{	int tz = zero_is_zero_bytes (format) && ((f + c + up + (int) vh_seed0) & 1) ;
 			if (!vh_thorough && up == 1 && cap == 2 && !(maj == SF_FORMAT_RF64 || maj == SF_FORMAT_AU)) continue ;	/* quick: the 2 GiB-only files for the 32-bit-field containers; all cross 4 GiB */
 			if (!vh_thorough && (vh_bits (format) == 64 || (vh_bits (format) == 32 && c == 2 && (format & SF_FORMAT_SUBMASK) == SF_FORMAT_PCM_32))) continue ;
